@@ -15,6 +15,9 @@ theorem sk_unregisterLocked : Generated.sk_http_GoatOverHttp_unregisterLocked = 
 theorem sk_Read : Generated.sk_http_httpReadWriter_Read = Expected.sk_http_httpReadWriter_Read := by decide
 theorem sk_Write : Generated.sk_http_httpReadWriter_Write = Expected.sk_http_httpReadWriter_Write := by decide
 theorem sk_channel : Generated.sk_channel_NewGoatOverChannel = Expected.sk_channel_NewGoatOverChannel := by decide
+/-- the websocket transport reads whole messages with conn.Read and keeps no state between reads -/
+theorem sk_wsRead : Generated.sk_websocket_goatOverWebsocket_Read = Expected.sk_websocket_goatOverWebsocket_Read := by decide
+theorem sk_wsWrite : Generated.sk_websocket_goatOverWebsocket_Write = Expected.sk_websocket_goatOverWebsocket_Write := by decide
 theorem http_chans : "http.go:readCh=0" ∈ Generated.chanCaps ∧ "http.go:done=0" ∈ Generated.chanCaps := by decide
 def idle_timeout_at_source := Transport.HttpConn.idle_timeout_fails_readers_not_senders Generated.cfg (by decide)
 def blocked_ops_at_source := Transport.HttpConn.blocked_ops_return_on_ctx_done Generated.cfg (by decide)
